@@ -41,8 +41,11 @@ def l1_case(draw):
     edge = draw(st.floats(0.95, 1.05))
     if abs(edge - 1.0) < 1e-9:
         edge = 1.0 + 1e-6  # an excess of exactly 0.0 is excluded (ASSUMPTIONS)
-    # max_boreholes is documented for the near-square and rectangle algorithms only
-    cap = draw(st.one_of(st.none(), st.integers(2, 12), st.integers(2, 400))) if lot["method"] in ("nearsquare", "rectangle") else None
+    # the fallback policy under a cap is documented for the near-square and rectangle algorithms; for the nested searches a cap
+    # is still a valid input and only the height window, N <= cap and the exception type are judged (cap_policy False)
+    cap = draw(st.one_of(st.none(), st.integers(2, 12), st.integers(2, 400)))
+    if lot["method"] not in ("nearsquare", "rectangle") and draw(st.integers(0, 2)) > 0:
+        cap = None
     return {"lot": lot, "hmin": hmin, "hmax": hmax, "a": a, "b": b, "mode": mode,
             "logq": draw(st.floats(-4.0, 4.0)), "edge": edge, "frac": draw(st.floats(0.0, 1.0)),
             "cap": cap, "cont": draw(st.booleans())}
@@ -113,9 +116,23 @@ def _run_l1(case):
     return res, out, h, fields, model, (q, q_small, q_large, n_small, n_large)
 
 
-def _policy(case, res, out, h, fields, model, info, what, cap_applies=True, smallest_policy=True):
+def _policy(case, res, out, h, fields, model, info, what, cap_applies=True, smallest_policy=True, cap_policy=True):
     q, q_small, q_large, n_small, n_large = info
     hmin, hmax, cap, cont = case["hmin"], case["hmax"], case["cap"], case["cont"]
+    if cap is not None and not cap_policy:
+        # nested search with a cap: only exception type, height window and N <= cap are part of the statement
+        if isinstance(res, Exception):
+            if not isinstance(res, ValueError):
+                where = repo_frame(res.__traceback__)
+                raise Violation(f"{what} (max_boreholes={cap}) raised {type(res).__name__}: {res} ({where})",
+                                sig={"kind": "exception", "exc": type(res).__name__, "where": where})
+            return "error", False, False, False
+        n = len(res.selected_coordinates)
+        if not (hmin - 1e-9 <= h <= hmax + 1e-9):
+            raise Violation(f"{what}: returned height {h} outside [{hmin}, {hmax}]", sig={"kind": "height_window", "what": what})
+        if n > cap and not any(mk in out for mk in gs.ESCAPE_MARKERS):
+            raise Violation(f"{what}: {n} boreholes returned, max_boreholes = {cap}", sig={"kind": "cap_exceeded", "what": what})
+        return "design", False, False, False
     too_large = model.excess(n_large, hmax) > 0  # not even the largest allowed candidate at max height fits
     too_small = model.excess(n_small, hmin) < 0  # even the smallest candidate at min height is more than enough
     if not smallest_policy:
@@ -163,8 +180,11 @@ def check_l1(case, rec):
         rec.cls("no_candidates(skipped)")
         return
     what = _search_cls(lot["method"]) + "/" + lot["method"]
-    kind, tl, ts, near = _policy(case, res, out, h, fields, model, info, what)
+    kind, tl, ts, near = _policy(case, res, out, h, fields, model, info, what,
+                                 cap_policy=lot["method"] in ("nearsquare", "rectangle"))
     rec.cls("cls_" + what)
+    if case["cap"] is not None and lot["method"] not in ("nearsquare", "rectangle"):
+        rec.cls("nested_search_with_cap")
     rec.cls("outcome_" + kind)
     if tl:
         rec.cls("unmet_large")
